@@ -60,9 +60,54 @@ SimContents == {C0, C1, C2, C3, C4, C5, C6}
 SimPair == {C0, C1, C2, C5}
 SimProfiles == {P1, P2, P3, P4}
 SimFilters == {F0, F1, F2, F3, F4, F5, F6, F7, F8, F9, F10, F11, F12, F13, F14}
+\* long behaviours against the real capacity of the id memory (200): a few more ids than the memory holds
+LongIds == {"m" \o ToString(i) : i \in 1..215}
 \* exhaustive tree of short behaviours
 TreeContents == {C0, C1, C5}
 TreePair == {C1}
 TreeProfiles == {P1, P2}
 TreeFilters == {F1, F4, F6, F10}
+
+\* ---- behaviour emission by simulation ------------------------------------------------------------
+\* TLC's simulator picks uniformly among ALL successor states, which would make nine of ten steps a
+\* two-match ProbeMatches or a duplicate.  SimNext is a restriction of Next (SimNext => Next) that first
+\* draws the class of the step and then its parameters with RandomElement, so every class of step is
+\* equally likely and one successor is computed per step.
+FreshIds == MsgIds \ Rng(seen)
+SeenIds == MsgIds \cap Rng(seen)
+PubOk == {e \in LocalEprs : \A x \in Of(local, e) : x.mv < 3}
+Classes == {"Hello", "PM1", "PM2", "RM", "Empty", "Bye", "Probe", "Resolve"}
+           \cup (IF PubOk # {} THEN {"Publish"} ELSE {})
+           \cup (IF SeenIds # {} THEN {"Dup", "DupSame"} ELSE {})
+           \cup (IF lastOwn.kind # "None" THEN {"Echo"} ELSE {})
+           \cup (IF local # {} THEN {"Unpublish", "ProbeHit", "ResolveHit"} ELSE {})
+           \cup (IF remote # {} THEN {"ByeKnown", "Again"} ELSE {})
+\* every draw is bound by \E over a singleton so that it is made exactly once
+Pick(S) == {RandomElement(S)}
+SimNext ==
+  \E k \in Pick(Classes), id \in Pick(FreshIds) :
+  CASE k = "Hello" -> \E as \in Pick(Anns1) : RecvHello(as, id)
+    [] k = "PM1" -> \E as \in Pick(Anns1) : RecvProbeMatches(as, id)
+    [] k = "PM2" -> \E as \in Pick(Anns2) : RecvProbeMatches2(as, id)
+    [] k = "RM" -> \E as \in Pick(Anns1) : RecvResolveMatches(as, id)
+    \* another announcement for an EPR that is in the table (version arbitration is exercised more often)
+    [] k = "Again" -> \E r \in Pick(remote), v \in Pick(Versions), c \in Pick(Contents), kind \in Pick(AnnKinds) :
+                         RecvFresh(In(kind, id, <<MkSvc(r.e, v, c)>>, "", NoFlt))
+    [] k = "Empty" -> \E kind \in Pick({"ProbeMatches", "ResolveMatches"}) : RecvEmptyMatches(kind, id)
+    [] k = "Bye" -> \E e \in Pick(Eprs) : RecvBye(e, id)
+    [] k = "ByeKnown" -> \E r \in Pick(remote) : RecvBye(r.e, id)
+    [] k = "Probe" -> \E f \in Pick(Filters) : RecvProbe(f, id)
+    \* a filter that at least one published service passes
+    [] k = "ProbeHit" -> LET fs == {f \in Filters : Matching(local, f) # {}} IN
+                         \E f \in Pick(IF fs = {} THEN Filters ELSE fs) : RecvProbe(f, id)
+    [] k = "Resolve" -> \E e \in Pick(LocalEprs \cup {UnknownEpr}) : RecvResolve(e, id)
+    [] k = "ResolveHit" -> \E s \in Pick(local) : RecvResolve(s.e, id)
+    [] k = "Dup" -> \E m \in Pick({m \in AllIn : m.id \in SeenIds}) : Duplicate(m)
+    \* the same id on a message of a kind drawn first
+    [] k = "DupSame" -> \E kind \in Pick(AnnKinds \cup {"Bye", "Probe", "Resolve"}) :
+                        \E m \in Pick({m \in AllIn : m.id \in SeenIds /\ m.kind = kind}) : Duplicate(m)
+    [] k = "Echo" -> Echo
+    [] k = "Publish" -> \E e \in Pick(PubOk), p \in Pick(Profiles) : Publish(e, p)
+    [] k = "Unpublish" -> \E s \in Pick(local) : Unpublish(s.e)
+SimSpec == Init /\ [][SimNext]_vars
 ==============================================================================
